@@ -1,13 +1,13 @@
 SPECIFICATION Spec
 CONSTANTS
-  MaxDims = 2
-  Lens = {2, 3, 4, 5}
-  DestSet = {"stdout", "fresh", "stale", "inplace"}
+  MaxDims = 4
+  Lens = {2, 3}
+  DestSet = {"stdout"}
   AB_KeepOldTail = FALSE
   AnyOrder = FALSE
-  PermuteNames = FALSE
+  PermuteNames = TRUE
   AB_TrustNamedOrder = FALSE
-  ShapeSet <- MCShapeSet
+  ShapeSet <- MCNameShapes
 INVARIANTS
   EqualsDocumented
   MaskExact
